@@ -1,8 +1,48 @@
-/- Driver handler of C20: protocol line (already split into tokens, without the leading "c20") -> answer. -/
+/- Driver handler of C20: protocol line (tokens, leading "c20") -> answer.
+   Text that spells an error code IS that error value in pycel, so inputs and outputs are normalised with `Val.ofText`.
+   An optional trailing argument that is omitted in the call is simply absent from the line. -/
 import Pycel.Model.Proto
+import Pycel.Model.TextFns
+import Pycel.Model.TextFormat
 namespace Pycel.Drv.C20
+open Pycel Pycel.TextFns
+
+def norm : Val → Val
+  | .str s => Val.ofText s
+  | v => v
+
+def out (v : Val) : String := (norm v).enc
+
+def args? (ts : List String) : Option (List Val) := (ts.mapM Val.dec?).map (·.map norm)
 
 def handle : List String → String
+  | "c20" :: fn :: ts =>
+    match args? ts with
+    | none => "!bad-arg"
+    | some vs =>
+      match fn, vs with
+      | "left", [t] => out (LEFT t none)
+      | "left", [t, n] => out (LEFT t (some n))
+      | "right", [t] => out (RIGHT t none)
+      | "right", [t, n] => out (RIGHT t (some n))
+      | "mid", [t, p, k] => out (MID t p k)
+      | "replace", [t, p, k, n] => out (REPLACE t p k n)
+      | "find", [f, t] => out (FIND f t none)
+      | "find", [f, t, s] => out (FIND f t (some s))
+      | "substitute", [t, o, n] => out (SUBSTITUTE t o n none)
+      | "substitute", [t, o, n, i] => out (SUBSTITUTE t o n (some i))
+      | "concatenate", vs => out (CONCATENATE vs)
+      | "amp", [a, b] => out (AMP a b)
+      | "trim", [t] => out (TRIM t)
+      | "upper", [t] => out (UPPER t)
+      | "lower", [t] => out (LOWER t)
+      | "exact", [a, b] => out (EXACT a b)
+      | "len", [t] => out (LEN t)
+      | "text", [v, f] =>
+        match TextFormat.TEXT v f with
+        | some r => out r
+        | none => "!unsupported-format"
+      | _, _ => "!bad-op"
   | _ => "!bad-op"
 
 end Pycel.Drv.C20
